@@ -46,3 +46,15 @@ KERNEL int K(k_layout3)(const size_t* shape, const size_t* wi, unsigned wv, cons
   put(a.strides(),rm_strides); put(b.strides(),cm_strides);
   return 1;
 }
+
+// ALL-CONSTANT call: compute_indices / compute_offset with a compile-time constant offset and a compile-time constant shape (2,3,4) are folded in the type system;
+// every one of the 24 instantiations is generated (template_for) and written out: out[3*k..] = indices(k_ct), back[k] = offset(indices(k_ct))
+KERNEL void K(k_indices_ct234)(size_t* out, size_t* back){
+  using namespace nm::literals;
+  constexpr auto shape = nmtools_tuple{2_ct,3_ct,4_ct};
+  meta::template_for<24>([&](auto k){
+    auto r = ix::compute_indices(k, shape);
+    out[3*decltype(k)::value + 0] = (size_t)nm::at(r, 0_ct); out[3*decltype(k)::value + 1] = (size_t)nm::at(r, 1_ct); out[3*decltype(k)::value + 2] = (size_t)nm::at(r, 2_ct);
+    back[decltype(k)::value] = (size_t)ix::compute_offset(r, ix::compute_strides(shape));
+  });
+}
